@@ -3,6 +3,9 @@
 (*  kind "parse":  a string built for a feature row (real checksum          *)
 (*                 function), acc/acc2 = StringToAddress / UnmarshalText    *)
 (*                 succeeded, same = parsed address equals the payload      *)
+(*  kind "parse-x": like "parse", but the string carries checksum / hash    *)
+(*                 material of a full address in the wrong place and its    *)
+(*                 features were lexed from the string itself               *)
 (*  kind "format": a seeded address a; the features are lexed from          *)
 (*                 a.String(); pay = the digits decode to a + checksum,     *)
 (*                 mt = MarshalText gives the same text, acc/same = the     *)
